@@ -42,6 +42,40 @@ def run(ck):
     funcs = [f for f in prog.funcs.values() if f.file.endswith("/pistache/async.h")]
     ck.require(len(funcs) > 50, "async.h functions not found")
 
+    _ls_memo = {}
+
+    def ls_of(fn_):
+        if fn_.id not in _ls_memo:
+            _ls_memo[fn_.id] = lib.locksets(fn_)
+        return _ls_memo[fn_.id]
+
+    def caller_locked(fn_, pname, depth=3):
+        """fn_ is a helper that works on its parameter `pname`: true when every call site passes a core whose mutex the caller holds
+        there (or which the caller created and has not published, or which is the caller's own locked parameter)"""
+        if fn_.is_lambda or depth <= 0:
+            return False
+        idx = [i for i, p_ in enumerate(fn_.params) if p_["name"] == pname]
+        sites_ = prog.call_sites(fn_.base)
+        if not idx or not sites_:
+            return False
+        for s_ in sites_:
+            sf = s_.func
+            if len(s_.get("args", [])) <= idx[0]:
+                return False
+            a_ = s_["args"][idx[0]].get("t") or ""
+            root_ = a_.split("->")[0].split(".")[0]
+            fresh_ = {d["var"] for d in sf.events("decl") if strip_tmpl(d.get("icall") or "") == "std::make_shared"}
+            if a_ in fresh_:
+                continue
+            if lib.holds(ls_of(sf).get((s_.block, s_.idx)), MTX, a_):
+                continue
+            if sf.base in LOCKED_PARAM and sf.params and sf.params[LOCKED_PARAM[sf.base]]["name"] in (a_, root_):
+                continue
+            if root_ in {p_["name"] for p_ in sf.params} and caller_locked(sf, root_, depth - 1):
+                continue
+            return False
+        return True
+
     for f in funcs:
         if f.base in EXEMPT_FUNCS:
             continue
@@ -76,6 +110,8 @@ def run(ck):
                 ok, why = True, "object created in this function (make_shared), unpublished"
             elif base in assumed or root in assumed:
                 ok, why = True, "parameter '%s' is locked by the caller (precondition verified at every Request::resolve/reject call)" % root
+            elif not lib.holds(ls.get((e.block, e.idx)), MTX, base) and root in {p_["name"] for p_ in f.params} and caller_locked(f, root):
+                ok, why = True, "helper working on its parameter '%s': every call site holds that core's mtx (checked at %d call sites)" % (root, len(prog.call_sites(f.base)))
             else:
                 ok = lib.holds(ls.get((e.block, e.idx)), MTX, base)
                 why = "guard on %s->mtx held" % base if ok else "no live guard on %s->mtx (held: %s)" % (
@@ -95,6 +131,9 @@ def run(ck):
             ck.ob("C12-R1", "precondition:%s(arg)" % what, ok, e.loc, f, "argument %s derives from the locked parameter %s" % (arg.get("t"), pname))
 
     # ---------------- R2 ----------------
+    summ = lib.Summaries(prog)
+    may_walk = summ.lift_may(lambda e: e["k"] == "call" and (e.get("callee") or "") in (P + "Request::resolve", P + "Request::reject"), "walk-continuations")
+
     def single_scope(f, kinds, name):
         ls = lib.locksets(f)
         need = []
@@ -102,7 +141,7 @@ def run(ck):
             if e["k"] == "call":
                 c = strip_tmpl(e.get("callee") or "")
                 rv = e.get("recv") or {}
-                if c in kinds or (e.get("op") == "=" and strip_tmpl(rv.get("f") or "") in (P + "Core::state", P + "Core::exc")):
+                if c in kinds or (c.startswith(P) and may_walk(e)) or (e.get("op") == "=" and strip_tmpl(rv.get("f") or "") in (P + "Core::state", P + "Core::exc")):
                     need.append(e)
         guards = [d for d in f.events("decl") if lib.guard_of_decl(d) and lib.guard_of_decl(d)[1] == MTX]
         ok = len(guards) == 1 and bool(need)
